@@ -26,7 +26,9 @@
 (*  - a failing stop does not prevent the remaining stops (follows from    *)
 (*    the previous rule);                                                  *)
 (*  - the error reaching the caller is the FIRST exception thrown, carries *)
-(*    its message and names the root node it came from and the phase.      *)
+(*    its message and names the root node it came from (the phase word in  *)
+(*    the message is not asserted: for a dynamically created child the     *)
+(*    failing start / stop happens inside the parent node's evaluation).   *)
 (***************************************************************************)
 EXTENDS Integers, Sequences, FiniteSets, TLC, Json, IOUtils
 
@@ -139,8 +141,6 @@ OnRet(e) ==
                 S.first = <<>> \/ \E j \in 1..Len(e.tags) : e.tags[j][1] = S.first[1] /\ e.tags[j][2] = S.first[2]>>,
           <<"C14.error_does_not_name_the_failing_node",
                 S.first = <<>> \/ e.node = RootIndex(S, S.first[3], S.first[4])>>,
-          <<"C14.error_does_not_name_the_failing_phase",
-                S.first = <<>> \/ e.phase = PhaseWord(S.first[2])>>,
           <<"C14.started_node_not_stopped_when_the_run_returned", ~cleanup \/ NothingLeftStarted(S)>>,
           <<"C14.user_stop_hook_skipped_for_a_started_node", ~cleanup \/ EveryStartHasItsStop(S)>> >>, 1)
     IN IF why # "" THEN Fail(why) ELSE Ok([S EXCEPT !.returned = TRUE])
